@@ -1112,7 +1112,7 @@ func (c *Conn) doInsert(st *ast.InsertStmt, args []interface{}) (*result, error)
 			if col.AutoInc {
 				iv, _ := toInt(row[ci])
 				if row[ci] == nil || iv == 0 {
-					autoCounter++
+					autoCounter = e.srv.nextAuto(autoCounter)
 					row[ci] = autoCounter
 					autoAssigned = true
 					if firstAuto == 0 {
